@@ -423,6 +423,10 @@ class RemoteWorker(Worker, metaclass=RemoteWorkerMeta):
         except ConnectionClosedError:
             self._result = (False, None)
             logger.debug('Connection to the child has been closed before receiving the result')
+        except Exception:
+            # the result arrived but cannot be rebuilt in this process
+            self._result = (False, None)
+            logger.debug('Could not deserialize the result', exc_info=1)
         else:
             self._user_state = recv_msg(self._socket, comment='data: user state')
             logger.debug('User state received')
